@@ -1,12 +1,64 @@
+//! Replay helper: re-executes counterexamples / witnesses on the real library (path dependency on /repo).
+//!   verif_replay eval <starlark source>      -> prints `OK <repr>` or `ERR <message>`
+//!   verif_replay evalfile <path>             -> one expression per line, prints one result line per input line
+//!   verif_replay callstack-empty             -> Evaluator::call_stack() on an idle evaluator
 use starlark::environment::{Globals, Module};
 use starlark::eval::Evaluator;
+use starlark::syntax::{AstModule, Dialect};
+
+fn eval_one(src: &str) -> String {
+    let r = std::panic::catch_unwind(|| {
+        Module::with_temp_heap(|module| {
+            let ast = match AstModule::parse("replay.star", src.to_owned(), &Dialect::Extended) {
+                Ok(a) => a,
+                Err(e) => return Ok::<String, anyhow::Error>(format!("ERR parse: {}", first_line(&e.to_string()))),
+            };
+            let globals = Globals::extended_internal();
+            let mut eval = Evaluator::new(&module);
+            match eval.eval_module(ast, &globals) {
+                Ok(v) => Ok(format!("OK {}", v.to_repr())),
+                Err(e) => Ok(format!("ERR {}", first_line(&format!("{:#}", e.kind())))),
+            }
+        })
+    });
+    match r {
+        Ok(Ok(s)) => s,
+        Ok(Err(e)) => format!("ERR {}", e),
+        Err(_) => "PANIC".to_owned(),
+    }
+}
+
+fn first_line(s: &str) -> String {
+    s.lines().next().unwrap_or("").to_owned()
+}
+
 fn main() {
-    Module::with_temp_heap(|module| {
-        let eval = Evaluator::new(&module);
-        println!("count={}", eval.call_stack_count());
-        let cs = eval.call_stack();
-        println!("frames={}", cs.frames.len());
-        Ok::<(), anyhow::Error>(())
-    }).unwrap();
-    let _ = Globals::standard();
+    let args: Vec<String> = std::env::args().collect();
+    match args.get(1).map(|s| s.as_str()) {
+        Some("eval") => println!("{}", eval_one(&args[2])),
+        Some("evalfile") => {
+            let text = std::fs::read_to_string(&args[2]).unwrap();
+            for line in text.lines() {
+                println!("{}", eval_one(line));
+            }
+        }
+        Some("callstack-empty") => {
+            let r = std::panic::catch_unwind(|| {
+                Module::with_temp_heap(|module| {
+                    let eval = Evaluator::new(&module);
+                    let n = eval.call_stack_count();
+                    let cs = eval.call_stack();
+                    Ok::<String, anyhow::Error>(format!("OK count={} frames={}", n, cs.frames.len()))
+                })
+            });
+            match r {
+                Ok(Ok(s)) => println!("{}", s),
+                _ => println!("PANIC Evaluator::call_stack() on an empty call stack"),
+            }
+        }
+        _ => {
+            eprintln!("usage: verif_replay eval <src> | evalfile <path> | callstack-empty");
+            std::process::exit(2);
+        }
+    }
 }
